@@ -139,6 +139,42 @@ def fam_literal_int(sess):
         ex.explore(run, on_path)
         if not box.get('viol') and not box.get('bad'):
             sess.discharged('%s size %s <literal>' % (fam, op), family=fam, queries=box.get('paths', 1))
+    # negative literals: `-size OP -<digits>` (both operands carry a leading minus)
+    for op in REF['Int']:
+        box = {}
+
+        def run(ctx, op=op):
+            Lm = ctx.fresh_bv('Lm', 64); Rm = ctx.fresh_bv('Rm', 64)
+            ctx.assume(And(Lm >= 0, Lm <= (1 << 40), Rm >= 1, Rm <= (1 << 40)))
+            ctx.ghost['fields'] = {'Size': E.mk_variant(prog, 'Int', int_value=some(Lm))}
+            left = E.expr_field(prog, 'Size'); left.f[E.struct_fields(prog, 'Expr').index('minus')] = BoolVal(True)
+            e = E.expr_cmp(prog, left, E.op_enum(prog, op), E.expr_value(prog, NumStr(Rm, False), minus=True))
+            r = E.run_conforms(ctx, prog, e)
+            return {'Lm': Lm, 'Rm': Rm}, r, REF['Int'][op](-Lm, -Rm)
+
+        def on_path(ctx, out, op=op):
+            name = '%s -size %s -<literal>' % (fam, op)
+            if out[0] != 'ret':
+                sess.inconclusive(name, str(out), fam); box['bad'] = True; return
+            sym, r, ref = out[1]
+            box['paths'] = box.get('paths', 0) + 1
+            res = ctx.check(r != ref)
+            if res == z3.unsat:
+                return
+            if res != z3.sat:
+                sess.inconclusive(name, 'solver unknown', fam); box['bad'] = True; return
+            if box.get('viol'):
+                return
+            box['viol'] = True
+            m = ctx.model(r != ref, sym['Lm'] <= 4096, sym['Rm'] <= 4096) or ctx.model(r != ref)
+            lm = m.eval(sym['Lm'], model_completion=True).as_long(); rm = m.eval(sym['Rm'], model_completion=True).as_long()
+            want = z3.is_true(m.eval(ref, model_completion=True))
+            atom = '-size %s -%d' % (E.OP_TEXT[op], rm)
+            sess.violated(name, 'literal/int/negative', 'size %d: evaluator says %s, arithmetic says %s for `%s`' % (lm, not want, want, atom),
+                          {'op': op, 'size': lm, 'literal': -rm}, cli_truth_replay(atom, {'f': {'size': lm}}, want), fam)
+        ex.explore(run, on_path)
+        if not box.get('viol') and not box.get('bad'):
+            sess.discharged('%s -size %s -<literal>' % (fam, op), family=fam, queries=box.get('paths', 1))
 
 
 BOOL_WORDS = {'true': True, '1': True, 'yes': True, 'y': True, 'false': False, '0': False, 'no': False, 'n': False}
